@@ -93,14 +93,17 @@ def handleSolve (j : Json) : Except String Json := do
       | some (flag, frac) => if flag ≥ 0 then .ok else .fail ((-flag - 1).toNat) (fun t tout => t + frac * (tout - t)),
     reinit := fun i => match re[i]? with | none => true | some b => b != 0,
     sub := subTarget }
+  let py : String := match Solve.pyWrapSolve env 0.0 y0 dt with
+    | .returned _ => "returned"
+    | .raised => "raised"
   match Solve.solve env 0.0 y0 dt with
-  | .success y => pure <| Json.mkObj [("result", "success"), ("ybits", toString y.toBits)]
-  | .fail l y => pure <| Json.mkObj [("result", "fail"), ("ybits", toString y.toBits), ("loggedbits", toString l.toBits)]
+  | .success y => pure <| Json.mkObj [("result", "success"), ("ybits", toString y.toBits), ("python", py)]
+  | .fail l y => pure <| Json.mkObj [("result", "fail"), ("ybits", toString y.toBits), ("loggedbits", toString l.toBits), ("python", py)]
 
 def handleOdeint (j : Json) : Except String Json := do
   let mx ← (← j.getObjVal? "mxsteps").getNat?
   let n ← (← j.getObjVal? "ncalls").getNat?
-  pure <| Json.mkObj [("success", Solve.odeintSolve mx n)]
+  pure <| Json.mkObj [("success", Solve.odeintSolve mx n), ("python_returns", Solve.odeintPyWrap mx n)]
 
 def parseReac (j : Json) : Except String Net.Reac := do
   let uid ← (← j.getArrVal? 0).getNat?
@@ -136,6 +139,29 @@ def handleNet (j : Json) : Except String Json := do
     let s' := Net.step acc.1 op
     (s', acc.2 ++ [snapshot s'])) (({} : Net.State), [])
   pure (Json.arr snaps.toArray)
+
+def handleExtend (j : Json) : Except String Json := do
+  let rs ← (← (← j.getObjVal? "reactions").getArr?).toList.mapM parseReac
+  let neutral ← natList (← j.getObjVal? "neutral")
+  let surface ← natList (← j.getObjVal? "surface")
+  let pairs := fun (k : String) => do
+    let a ← (← j.getObjVal? k).getArr?
+    a.toList.mapM fun p => do pure ((← (← p.getArrVal? 0).getNat?), (← (← p.getArrVal? 1).getNat?))
+  let ice ← pairs "iceOf"
+  let gas ← pairs "gasOf"
+  let look := fun (tab : List (Nat × Nat)) (x : Nat) => match tab.find? (·.1 == x) with | some p => p.2 | none => x
+  let attr : Net.SpAttr := ⟨fun x => neutral.contains x, fun x => surface.contains x, look ice, look gas⟩
+  let keep ← match j.getObjVal? "keep" with
+    | .ok Json.null => pure none
+    | .ok v => do pure (some (← natList v))
+    | .error _ => pure none
+  let remove ← natList (← j.getObjVal? "remove")
+  let dedup ← (← j.getObjVal? "dedup").getBool?
+  let deplete ← (← j.getObjVal? "deplete").getBool?
+  let desorb ← natList (← j.getObjVal? "desorb")
+  let s := Net.extend attr (fun _ _ _ => 0) ⟨keep, remove, dedup, deplete, desorb⟩ rs
+  pure <| Json.mkObj [("held", Json.arr (s.held.map fun r => Json.arr #[natsJson r.re, natsJson r.pr]).toArray),
+    ("species", natsJson (sortNats (Net.speciesSet s)))]
 
 /-- default-mode equality on (class, type): same class and (same type or one of them UNKNOWN = 0) -/
 def relEq (a b : Nat × Nat × Nat) : Bool := a.2.1 == b.2.1 && (a.2.2 == b.2.2 || a.2.2 == 0 || b.2.2 == 0)
@@ -378,7 +404,18 @@ def handleParseOpts (j : Json) : Except String Json := do
     ("lists", Json.arr (lists.map fun l => Json.arr ((Cfg.parseList l.toList).map S).toArray).toArray),
     ("tables", Json.arr (kvs.map fun l => match Cfg.parseKV ':' l.toList with
       | some ps => Json.arr (ps.map fun p => Json.arr #[S p.1, S p.2]).toArray
-      | none => Json.null).toArray)]
+      | none => Json.null).toArray),
+    ("rate_modifier", match j.getObjVal? "ratemod" with
+      | .ok (Json.arr occs) => (match Cfg.parseRateMod (occs.toList.filterMap fun o => (o.getStr?.toOption).map String.toList) with
+          | some ps => Json.arr ((Cfg.dictOf ps).map fun p => Json.arr #[S p.1, S p.2]).toArray
+          | none => Json.null)
+      | _ => Json.null),
+    ("ode_modifier", match j.getObjVal? "odemod" with
+      | .ok (Json.arr occs) => (match Cfg.parseOdeMod (occs.toList.filterMap fun o => (o.getStr?.toOption).map String.toList) with
+          | some ts => Json.arr ((Cfg.groupTerms ts).map fun e => Json.arr #[S e.1, Json.arr (e.2.1.map S).toArray,
+              Json.arr (e.2.2.map fun d => Json.arr (d.map S).toArray).toArray]).toArray
+          | none => Json.null)
+      | _ => Json.null)]
 
 def parseSpecInfo (j : Json) (base : Nat) : Except String Grain.SpecInfo := do
   let alias ← (← j.getObjVal? "alias").getStr?
@@ -418,6 +455,7 @@ def handle (line : String) : String :=
       | "override" => handleOverride j
       | "solve" => handleSolve j
       | "net" => handleNet j
+      | "extend" => handleExtend j
       | "window" => handleWindow j
       | "gasrate" => handleGasRate j
       | "decode" => handleDecode j
